@@ -800,12 +800,15 @@ fn input_path_to_segments(path: &InputPath) -> Result<Vec<String>, String> {
     path.0
         .split('/')
         .filter(|segment| !segment.is_empty())
-        .map(|segment| match segment {
-            "." | ".." => Err("dot-segments are not permitted".to_string()),
-            _ => Ok(percent_decode_str(segment)
+        .map(|segment| {
+            // Decode first: "%2e%2e" is just another spelling of "..".
+            let decoded = percent_decode_str(segment)
                 .decode_utf8()
-                .map_err(|e| e.to_string())?
-                .to_string()),
+                .map_err(|e| e.to_string())?;
+            match decoded.as_ref() {
+                "." | ".." => Err("dot-segments are not permitted".to_string()),
+                _ => Ok(decoded.to_string()),
+            }
         })
         .collect()
 }
